@@ -23,6 +23,7 @@ import (
 	"path/filepath"
 	"sort"
 	"strings"
+	"sync/atomic"
 	"testing"
 
 	"github.com/pilosa/pilosa/internal/vx"
@@ -46,6 +47,9 @@ var c11Univ = [5][2]uint64{
 
 // bits of the time field's standard view that must stay untouched while standard_2019 is repaired.
 const c11OtherViewMask = 0x07 // positions 0,1,2
+
+// number of evaluated cases that contain none of the trigger conditions of c11Triggers (fully guarded cases)
+var c11NoTrigger int64
 
 type c11JSONSerializer struct{}
 
@@ -421,6 +425,9 @@ func (g *c11Group) run(c *vx.Check, kind int, syncer int, missing bool, assign [
 	differ := c11DifferMask(assign)
 	// Trigger conditions of the case (features of the INPUT, used only to name a failure; see c11Triggers).
 	trig := c11Triggers(assign, syncer, kind)
+	if trig == "" {
+		atomic.AddInt64(&c11NoTrigger, 1)
+	}
 	contentOK := true
 	outcome := make([]string, 0, g.R)
 	for k := 0; k < g.R; k++ {
@@ -764,6 +771,7 @@ func TestVerif_C11(t *testing.T) {
 		}
 	}
 	c.AddValidated(c.Evaluations)
+	c.Extra("cases_without_known_defect_trigger", atomic.LoadInt64(&c11NoTrigger))
 	c.Assume("replica contents limited to a 5-position universe (rows 0,1,99 | 100; columns 0,1,ShardWidth-1) — the merge is position-relative")
 	c.Assume("message delivery is in-process and reliable; a pass that completes is what the statement quantifies over")
 	if c.Finish() != 0 {
